@@ -39,7 +39,7 @@ def root_fn(defpath):
 def bodies_in(prog, module_prefix, include_derived=False):
     """bodies of a module (incl. trait impls `<module::T as ..>::m`); #[derive]-generated impls excluded by default"""
     return [b for d, b in prog.bodies.items() if (d.startswith(module_prefix) or d.startswith("<" + module_prefix))
-            and (include_derived or not b.rec.get("derived"))]
+            and (include_derived or not b.generated)]
 
 
 def site_of(c):
